@@ -2,6 +2,8 @@
 //   way = data    : assign("X", <Data tree>)            then evalAsData("X")
 //         expr    : assign("X", Data(<lua source of D>, INTERPRETED)) then evalAsData("X")     (D given as hex lua source: S<hex>)
 //         event   : receive(Event e with data = <Data tree>), chart takes a transition on e, evalAsData("_event.data")
+//         content / namelist / donedata / donecontent : X := <Data tree>; sent to self as <content expr>, namelist, or raised as
+//                   the donedata (<param> / <content expr>) of a final state; evalAsData of the event's data
 //         param   : X := <Data tree>; <send event="p"><param name="p1" expr="X"/></send> to self; evalAsData("_event.data.p1")
 //         sysvar:<name> : <assign location="<name>" expr="1"/> in a chart -> error event name and value of the variable before/after
 // response: value <dump> | err:<event> | CRASH:<sig>
@@ -52,10 +54,20 @@ static std::string dump(const Data& d) {
 static const char* CHART =
     "<scxml xmlns=\"http://www.w3.org/2005/07/scxml\" version=\"1.0\" datamodel=\"lua\">"
     "<datamodel><data id=\"X\"/><data id=\"Seen\" expr=\"0\"/></datamodel>"
-    "<state id=\"s\">"
+    "<state id=\"s\" initial=\"s0\">"
     "<transition event=\"ev\"><assign location=\"Seen\" expr=\"1\"/></transition>"
-    "<transition event=\"go\"><send event=\"p\"><param name=\"p1\" expr=\"X\"/></send></transition>"
     "<transition event=\"p\"><assign location=\"Seen\" expr=\"2\"/></transition>"
+    "<transition event=\"done.state.c1\"><assign location=\"Seen\" expr=\"3\"/></transition>"
+    "<transition event=\"done.state.c2\"><assign location=\"Seen\" expr=\"3\"/></transition>"
+    "<state id=\"s0\">"
+    "<transition event=\"go\"><send event=\"p\"><param name=\"p1\" expr=\"X\"/></send></transition>"
+    "<transition event=\"goc\"><send event=\"p\"><content expr=\"X\"/></send></transition>"
+    "<transition event=\"gon\"><send event=\"p\" namelist=\"X\"/></transition>"
+    "<transition event=\"god\" target=\"c1\"/>"
+    "<transition event=\"godc\" target=\"c2\"/>"
+    "</state>"
+    "<state id=\"c1\"><final id=\"f1\"><donedata><param name=\"p1\" expr=\"X\"/></donedata></final></state>"
+    "<state id=\"c2\"><final id=\"f2\"><donedata><content expr=\"X\"/></donedata></final></state>"
     "</state></scxml>";
 
 static void settle(Interpreter& interp) {
@@ -112,6 +124,14 @@ static std::string session(const std::string& line) {
 			settle(interp);
 			if (impl->evalAsData("Seen").atom != "2") return "err:not-delivered";
 			return "value " + dump(impl->evalAsData("_event.data.p1"));
+		} else if (way == "content" || way == "namelist" || way == "donedata" || way == "donecontent") {
+			// the value leaves the datamodel through <send>/<donedata> and comes back as the data of the event
+			impl->assign("X", d, std::map<std::string, std::string>());
+			interp.receive(Event(way == "content" ? "goc" : way == "namelist" ? "gon" : way == "donedata" ? "god" : "godc", Event::EXTERNAL));
+			settle(interp);
+			std::string want = (way == "donedata" || way == "donecontent") ? "3" : "2";
+			if (impl->evalAsData("Seen").atom != want) return "err:not-delivered";
+			return "value " + dump(impl->evalAsData(way == "namelist" ? "_event.data.X" : way == "donedata" ? "_event.data.p1" : "_event.data"));
 		}
 		return "bad-op";
 	} catch (Event e) {
